@@ -100,6 +100,8 @@ let () =
         in
         let out = run_step_ser rnd input in
         print_list "R" out
+      | "D" :: rest -> print_list "R" (run_decode (List.map n_of_string rest))
+      | "N" :: rest -> print_list "R" (run_encode (List.map n_of_string rest))
       | [] -> ()
       | _ -> print_string "E bad request\n"; flush stdout
     done
